@@ -1,5 +1,7 @@
 import MdkVerif.Model.Client
+import MdkVerif.Model.Proposal
 import MdkVerif.Proofs.Client
+import MdkVerif.Proofs.Proposal
 import MdkVerif.Props.C06Wrap
 import MdkVerif.Props.C06Ffi
 import MdkVerif.Props.C08
@@ -167,6 +169,180 @@ theorem refuse_frame_full_false_retag : ¬ refuse_frame_full := by
 /-- non-vacuity of `refuse_frame_partial`: a refused duplicate in a state with a snapshot -/
 example : isBetter wAfterGood (epochOf wGood.path) wGood = false ∧ isRefusal (deliver wAfterGood { wGood with n := 9, ts := 30 } 0).2 = true := by
   decide
+
+/-! ### the frame over `Model.Proposal`: every proposal type, commits that reference queued proposals.
+    The projection additionally contains the foreign part of the proposal store (`xq`; the leaves are `Proj.props`).
+    New with the proposal flow: `auto_commit_proposal` stores the proposal BEFORE it tries to build the commit, so when the
+    commit cannot be built (a commit is pending; a queued Remove names the receiver) the call is refused — `Unprocessable`,
+    Failed record, never retried — with the proposal left in the store (finding autocommit-failed-proposal-stored). -/
+section ProposalFrame
+open MdkVerif.Proposal
+
+def projP (c : Cl) : Proj × List QP := (proj c, c.g.xq)
+
+def refuse_frame_P_full : Prop :=
+  ∀ (c : Cl) (x : PEv) (nx : Nat), Synced c.g → isRefusal (deliverP c x nx).2 = true → projP (deliverP c x nx).1 = projP c
+
+def FrameP (c : Cl) (r : Cl × Res) : Prop := isRefusal r.2 = true → projP r.1 = projP c
+
+/-- the event is a member's own leave, the receiver is an admin, and the auto-commit cannot be built -/
+def AutoCommitBlocked (c : Cl) (x : PEv) : Prop :=
+  propKind x = some (.remove x.e.sender) ∧ isAdmin c.g c.id = true ∧
+  (c.g.pending.isSome = true ∨ storeRemoves (storeProp c.g x.e.sender (.remove x.e.sender)) c.id = true)
+
+theorem ownMessage_xq (c : Cl) (e : Ev) : (ownMessage c e).1.g.xq = c.g.xq := by
+  unfold ownMessage
+  repeat' split
+  all_goals rfl
+
+theorem notBetterResult_xq (c : Cl) (e : Ev) : (notBetterResult c e).1.g.xq = c.g.xq := by
+  unfold notBetterResult
+  repeat' split
+  all_goals rfl
+
+theorem frameP_of (c : Cl) (r : Cl × Res) (h : Frame c r) (hx : r.1.g.xq = c.g.xq) : FrameP c r := by
+  intro hr; simp [projP, h hr, hx]
+
+theorem storeRemoves_storeProp (g g' : GState) (s me : Nat) (p : PK) (h1 : g'.props = g.props) (h2 : g'.xq = g.xq) :
+    storeRemoves (storeProp g' s p) me = storeRemoves (storeProp g s p) me := by
+  cases p with
+  | remove t => simp only [storeRemoves, storeProp]; split <;> simp [h1, h2]
+  | add w => simp [storeRemoves, storeProp, h1, h2]
+  | update => simp [storeRemoves, storeProp, h1, h2]
+  | gce => simp [storeRemoves, storeProp, h1, h2]
+  | other => simp [storeRemoves, storeProp, h1, h2]
+
+/-- one pass over `Model.Proposal`, provided no rollback is triggered and the event is not an auto-commit that cannot be built -/
+theorem step1P_refuse_frame (retry : Cl → Option (Cl × Res)) (nx : Nat) (c : Cl) (x : PEv) (hs : Synced c.g)
+    (hnb : isBetter c (epochOf x.e.path) x.e = false) (hb : ¬ AutoCommitBlocked c x) : FrameP c (step1P retry nx c x) := by
+  have hwx : (withSecret c).g.xq = c.g.xq := by simp
+  unfold step1P
+  simp only
+  split
+  · intro _; rfl
+  · split
+    · intro _; rfl
+    · split
+      · intro _
+        have h1 : proj (recordFailure (withSecret c) x.e.n true none) = proj c := by simp
+        have h2 : (recordFailure (withSecret c) x.e.n true none).g.xq = c.g.xq := hwx
+        simp only [projP, h1, h2]
+      · split
+        · -- a proposal
+          rename_i p hp
+          split
+          · exact frameP_of c _ (frame_fail c x.e) (by simp [failUnprocessable, recordFailure, setRec])
+          · split
+            · exact frameP_of c _ (frame_ownMessage c x.e hs) (by rw [ownMessage_xq]; exact hwx)
+            · split
+              · exact frameP_of c _ (frame_fail c x.e) (by simp [failUnprocessable, recordFailure, setRec])
+              · unfold processProposal
+                cases p with
+                | update => intro _; simp [projP, setRec, proj, withSecret, ensureSecret_fields, ensureSecret_data]
+                | gce => intro _; simp [projP, setRec, proj, withSecret, ensureSecret_fields, ensureSecret_data]
+                | other => intro _; simp [projP, setRec, proj, withSecret, ensureSecret_fields, ensureSecret_data]
+                | add w => intro h; simp [isRefusal] at h
+                | remove t =>
+                  simp only
+                  split
+                  · rename_i hcond
+                    split
+                    · -- the auto-commit cannot be built: excluded by the hypothesis
+                      rename_i hblk
+                      exfalso
+                      apply hb
+                      simp only [Bool.and_eq_true, beq_iff_eq] at hcond
+                      obtain ⟨ht, hadm⟩ := hcond
+                      subst ht
+                      refine ⟨hp, by simpa [isAdmin] using hadm, ?_⟩
+                      simp only [Bool.or_eq_true] at hblk
+                      rcases hblk with hblk | hblk
+                      · left
+                        have : (storeProp { (withSecret c).g with consumed := x.e.cipher :: (withSecret c).g.consumed } x.e.sender (.remove x.e.sender)).pending = c.g.pending := by
+                          simp [storeProp]
+                        rw [this] at hblk; exact hblk
+                      · right
+                        rw [storeRemoves_storeProp c.g _ x.e.sender _ _ (by simp) (by simp)] at hblk
+                        exact hblk
+                    · intro h; simp [isRefusal] at h
+                  · intro h; simp [isRefusal] at h
+        · split
+          · -- commit
+            split
+            · unfold wrongEpochCommit
+              simp only [withSecret_isBetter, hnb, Bool.false_eq_true, if_false]
+              exact frameP_of c _ (frame_notBetter c x.e hs) (by rw [notBetterResult_xq]; exact hwx)
+            · split
+              · split
+                · intro h; simp [isRefusal] at h
+                · exact frameP_of c _ (frame_ownMessage c x.e hs) (by rw [ownMessage_xq]; exact hwx)
+              · split
+                · exact frameP_of c _ (frame_fail c x.e) (by simp [failUnprocessable, recordFailure, setRec])
+                · split
+                  · -- a referenced proposal is not held: the generation is consumed, nothing else
+                    intro _; simp [projP, failUnprocessable, recordFailure, setRec, proj, withSecret, ensureSecret_fields, ensureSecret_data]
+                  · unfold processCommitP
+                    split
+                    · intro _; simp [projP, recordFailure, setRec, proj, withSecret, ensureSecret_fields, ensureSecret_data]
+                    · split <;> (intro h; simp [isRefusal] at h)
+          · exact frameP_of c _ (frame_fail c x.e) (by simp [failUnprocessable, recordFailure, setRec])
+          · -- app
+            split
+            · exact frameP_of c _ (frame_fail c x.e) (by simp [failUnprocessable, recordFailure, setRec])
+            · split
+              · exact frameP_of c _ (frame_fail c x.e) (by simp [failUnprocessable, recordFailure, setRec])
+              · split
+                · exact frameP_of c _ (frame_ownMessage c x.e hs) (by rw [ownMessage_xq]; exact hwx)
+                · split
+                  · exact frameP_of c _ (frame_fail c x.e) (by simp [failUnprocessable, recordFailure, setRec])
+                  · intro h; simp [isRefusal, storeApp] at h
+
+/-- **refuse_frame_P_partial**: for every client state, every event — application message, commit with or without referenced
+    proposals, proposal of ANY type — and every fuel: if no rollback is triggered and the event is not a leave whose
+    auto-commit cannot be built, a refused event (`Err`, `Unprocessable`, `PreviouslyFailed`, `IgnoredProposal`) leaves the
+    projection — MLS state, roster, data, BOTH parts of the proposal store, pending commit, record, messages — exactly as it was -/
+theorem refuse_frame_P_partial (fuel nx : Nat) (c : Cl) (x : PEv) (hs : Synced c.g)
+    (hnb : isBetter c (epochOf x.e.path) x.e = false) (hb : ¬ AutoCommitBlocked c x)
+    (h : isRefusal (deliverNP fuel nx c x).2 = true) : projP (deliverNP fuel nx c x).1 = projP c := by
+  have key : ∀ retry, FrameP c (deliverOnceP retry nx c x) := by
+    intro retry
+    unfold deliverOnceP
+    split
+    · split
+      · intro _; rfl
+      · exact step1P_refuse_frame retry nx c x hs hnb hb
+    · exact step1P_refuse_frame retry nx c x hs hnb hb
+  cases fuel with
+  | zero => exact key _ h
+  | succ f => exact key _ h
+
+/-- the hypothesis is necessary: admin 0 has staged a commit of its own (pending until its echo) when member 1's leave
+    arrives — the call answers `Unprocessable`, the leave is in the store, and it stays there (the record is Failed, the
+    event is never processed again); replayed on the implementation: corpus/C06/autocommit_fails_after_store.trace -/
+def wAdminPending : Cl := (stageCommitP (initCl 0 false 5 [0, 1, 2] [0] 1) 0 10 11 .selfUpdate false).1
+def wLeave1 : PEv := { e := { n := 1, ts := 20, idnum := 21, cipher := 1, sender := 1, path := [], kind := .leave } }
+
+theorem witness_autocommit_fails_after_store :
+    wAdminPending.g.props = [] ∧
+    (deliverP wAdminPending wLeave1 2).2 = .unprocessable ∧ (deliverP wAdminPending wLeave1 2).1.g.props = [1] ∧
+    (deliverP (deliverP wAdminPending wLeave1 2).1 wLeave1 2).2 = .unprocessable ∧
+    -- … and the admin's next commit of its own carries the leave out after all
+    (Client.clear (deliverP wAdminPending wLeave1 2).1).1.g.props = [1] := by decide
+
+theorem refuse_frame_P_full_false : ¬ refuse_frame_P_full := by
+  intro h
+  have := h wAdminPending wLeave1 2 (by decide) (by decide)
+  revert this; decide
+
+/-- non-vacuity of `refuse_frame_P_partial`: refused events of the new kinds — a GroupContextExtensions proposal (ignored), a
+    commit whose referenced leave the receiver does not hold -/
+example : let c := initCl 2 false 5 [0, 1, 2] [0] 1
+    let x : PEv := craftProp (initCl 1 false 5 [0, 1, 2] [0] 1) 1 10 11 .gce
+    let y : PEv := { e := { n := 2, ts := 10, idnum := 11, cipher := 2, sender := 0, path := [], kind := .commit .selfUpdate [1] } }
+    ¬ AutoCommitBlocked c x ∧ (deliverP c x 0).2 = .ignored ∧ ¬ AutoCommitBlocked c y ∧ (deliverP c y 0).2 = .unprocessable := by
+  refine ⟨?_, by decide, ?_, by decide⟩ <;> (intro h; have := h.1; revert this; decide)
+
+end ProposalFrame
 
 /-! ### the outermost layer of `process_message` (raw kind-445 event → MLS layer), several groups per client:
     proved in Props/C06Wrap.lean over Model.Wrap, re-exported here so that they are obligations of this property -/
